@@ -8,7 +8,7 @@ ID=$1
 F=/verif/fuzz
 SEED=${VERIF_SEED:-1}
 [ "$SEED" = 0 ] && SEED=1
-RUNS=${PGFUZZ_RUNS:-200000}
+RUNS=${PGFUZZ_RUNS:-120000}
 PROCS=${PGFUZZ_PROCS:-8}
 case "$ID" in
 C17) JOBS="deser_bytes:-" ;;
